@@ -211,6 +211,10 @@ def run(ctx: Ctx):
         ctx.nontrivial_count += 1
         for clause, msg, rep in mism:
             ctx.violation("random:" + clause, msg, rep)
+    # 2-D reading of the same tables (Dataset2D.tla): object_ann per camera, ROI truncation, traffic-light regulatory-element merging
+    from . import dataset2d
+
+    dataset2d.run(ctx)
     ctx.exhaustive = False
     ctx.rule = (
         "TLC builds sampled datasets (1-3 samples incl. a 4.5 s gap, 3 lattice ego poses, 2 instances with categories inside / outside the label "
@@ -219,6 +223,9 @@ def run(ctx: Ctx):
         "dataset is written as a T4 directory (LIDAR_TOP / LIDAR_CONCAT, visibility by level name / by v0-40 alias) and loaded with the real "
         "load_all_datasets for detection, tracking and sensing in both frames, merge on/off, and compared field by field (times, names, uuids, "
         "labels, attributes, sizes, points, visibility member, poses to 1e-9, tracked past positions, stored ego->map transform). Random float "
-        "datasets (5-20 samples, 6 instances) are loaded in both frames and checked for structure and ego->map consistency to 1e-6."
+        "datasets (5-20 samples, 6 instances) are loaded in both frames and checked for structure and ego->map consistency to 1e-6. The 2-D loader "
+        "(Dataset2D.tla: <= 2 samples, 3 cameras some without data, 3 instances on 2 regulatory elements, <= 4 annotations in table order, 3 tasks x "
+        "2 label families, any requested camera list in rotated order) is replayed on generated nuImages tables: objects in table order, camera, "
+        "uuid, label, attributes, truncated ROI, stored ego->map transform, traffic-light merging incl. the three-label error."
     )
     ctx.assumptions += ["lidar calibrated at the ego origin (T4 convention)", "lattice poses: quarter-turn ego yaw, 15-degree object yaw; random datasets use arbitrary yaw and, for half of the samples, pitch / roll / height of the ego"]
